@@ -33,12 +33,16 @@ class Path(object):
         return flat_events(self.events, into_loops)
 
 
-def flat_events(events, into_loops=True, loops=()):
+def flat_events(events, into_loops=True, loops=(), into_pure=False):
     for e in events:
         yield e, loops
         if e["k"] == "loop" and into_loops:
             for alt in e["alts"]:
-                for x in flat_events(alt["events"], True, loops + (e,)):
+                for x in flat_events(alt["events"], True, loops + (e,), into_pure):
+                    yield x
+        elif e["k"] == "pure" and into_pure:
+            for evs in e["alt_events"]:
+                for x in flat_events(evs, into_loops, loops, True):
                     yield x
 
 
